@@ -1,5 +1,6 @@
 import Whawty.Model.Config
 import Whawty.Model.Reload
+import Whawty.Model.Cli
 import Driver.Proto
 namespace Whawty.CfgCmd
 open Whawty Whawty.Proto Whawty.Config
@@ -34,6 +35,13 @@ def predict (cmd : List String) : Option String :=
   | ["cfg.load", basedirEmpty, dflt, sets] => do
     let ss ← if sets == "[]" then pure [] else (sets.splitOn ",").mapM pSet
     pure (sBool (fromConfig { basedirEmpty := ← pBool basedirEmpty, default := ← dflt.toNat?, params := ss }))
+  | ["cli.gate", cmd, loads, valid, empty, doCheck] => do
+    let c : Cli.Cmd ← match cmd with
+      | "init" => some .init | "check" => some .check | "add" => some .add | "remove" => some .remove
+      | "update" => some .update | "set-admin" => some .setAdmin | "list" => some .list
+      | "authenticate" => some .authenticate | "run" => some .run | "runsa" => some .runsa | _ => none
+    let e : Cli.Env := ⟨← pBool loads, ← pBool valid, ← pBool empty, ← pBool doCheck⟩
+    pure (match Cli.gate e c with | .exit3 => "exit3" | .proceeds => "proceeds" | .exit0 => "exit0")
   | ["rl.step", curBase, curDef, newBase, newDef, loadable, dirOk] => do
     -- one SIGHUP: which configuration is live afterwards (base directory and default id)
     let cur : Reload.Live := ⟨← pBytes curBase, ← curDef.toNat?, []⟩
